@@ -236,7 +236,10 @@ def _run(pid: str, tier: str, seed: int, replay: str | None = None) -> int:
 
     # ---- 3. divergence without a failing oracle, or a broken obligation: search ----
     searched = 0
-    need_search = (corr_fail or broken_obligation) and not outc.violations and not replay
+    # (a correspondence failure that is a listed finding needs no search: it is reported as KNOWN-FINDING below)
+    corr_unknown = [i for i in sorted(corr_fail)
+                    if not ((_classify(mod, cases[i], outs[i], "corr", res, i) or "") in known_keys)]
+    need_search = (corr_unknown or broken_obligation) and not outc.violations and not replay
     extra_cases, extra_outs = [], []
     if need_search:
         for k in range(1, 4 if tier == "quick" else 8):
